@@ -109,11 +109,8 @@ theorem readC_ro (d : Bytes) (h : Handle) (len : Nat) : (readC d h len).1.readOn
 
 theorem seekC_ro (d : Bytes) (h : Handle) (off : Int) (wh : Nat) : (seekC d h off wh).1.readOnly = h.readOnly := by
   unfold seekC
-  split
-  · rfl
-  · simp only
-    repeat' split
-    all_goals rfl
+  repeat' split
+  all_goals rfl
 
 theorem writeC_ro (d : Bytes) (h : Handle) (b : Bytes) (hr : h.readOnly = true) :
     (writeC d h b).1 = d ∧ (writeC d h b).2.1 = h ∧ FOut.success (writeC d h b).2.2 = false := by
